@@ -15,18 +15,15 @@ var zzEOF = io.EOF
 // C11: a CER is accepted exactly when a common application exists.
 
 // zzSup is the reference "the local dictionary supports application id with this type" (DESIGN B.6),
-// computed over the public list of loaded applications.
+// computed over the public list of loaded applications: a declaration of the id with that type, or
+// without a type (an untyped declaration serves every type).
 func zzSup(id uint32, typ string) bool {
-	var last *dict.App
 	for _, a := range dict.Default.Apps() {
-		if a.ID == id {
-			if a.Type == typ {
-				return true
-			}
-			last = a
+		if a.ID == id && (a.Type == typ || a.Type == "") {
+			return true
 		}
 	}
-	return last != nil && last.Type == ""
+	return false
 }
 
 type zzAppAVP struct {
